@@ -3,7 +3,7 @@
    and nothing else. *)
 From AK Require Import Base.Prelude Base.Sx Bytes.Text Bytes.FabHeader Bytes.BinFile
   Reader.Select Reader.BoxRead Reader.Level Plotfile.TextHeader Taste.Taste Writers.Colander
-  Array.Paint Mandoline.Plate Whip.Whip.
+  Array.Paint Mandoline.Plate Whip.Whip Pestle.Pestle.
 
 Definition as_Zs := as_list as_Z.
 Definition as_optZ := as_opt as_Z.
@@ -314,6 +314,24 @@ Definition e_whip (s : sx) : sx :=
   | _ => bad_request
   end.
 
+(* ---- C09: pestle ----
+   request: (levels limit id_int id_vol) with levels = list of lists of
+   (lo hi (component values ...)); result: per level the per-box sums *)
+Definition dec_ibox (s : sx) : option ibox :=
+  match s with
+  | SL [lo; hi; d] => do lo <- as_Zs lo; do hi <- as_Zs hi; do d <- as_list as_Zs d;
+                      Some {| ib_lo := lo; ib_hi := hi; ib_data := d |}
+  | _ => None
+  end.
+
+Definition e_pestle (s : sx) : sx :=
+  match s with
+  | SL [lvs; SZ limit; SZ id_int; id_vol] =>
+      req (do lvs <- as_list (as_list dec_ibox) lvs; do v <- as_optZ id_vol; Some (lvs, v))
+          (fun '(lvs, v) => ok (of_list of_Zs (volume_integral lvs (Z.to_nat limit) id_int v)))
+  | _ => bad_request
+  end.
+
 Definition entries : list (string * (sx -> sx)) :=
   [ ("getitem", e_getitem);
     ("iter_all", e_iter_all);
@@ -332,7 +350,8 @@ Definition entries : list (string * (sx -> sx)) :=
     ("taste_all", e_taste_all);
     ("colander", e_colander);
     ("plate", e_plate);
-    ("whip", e_whip)
+    ("whip", e_whip);
+    ("pestle", e_pestle)
   ]%string.
 
 Fixpoint find_entry (name : string) (l : list (string * (sx -> sx))) : option (sx -> sx) :=
